@@ -8,6 +8,7 @@ import GstVerif.Neigh.Driver
 import GstVerif.Vario.Driver
 import GstVerif.Calc.Driver
 import GstVerif.NF.Driver
+import GstVerif.Cow.Driver
 /-
   gstmodel: line-protocol driver.  One request per input line:
       <model> <op> <args…> => <implementation's answer…>
@@ -39,6 +40,7 @@ def dispatch0 (req impl : List String) : String :=
   | "v" :: args => Vario.handle args impl
   | "c" :: args => Calc.handle args impl
   | "f" :: args => NF.handle args impl
+  | "o" :: args => Cow.handle args impl
   | _ => "bad-op"
 
 /-- a request of a numerical model which its handler cannot parse because the implementation
